@@ -17,7 +17,7 @@ GRAPH_STREAM = dict(
 
 CORE_STREAM = dict(
     name='core', pkg='.', files=['harness/core/vp_core_test.go', 'harness/core/vp_types_test.go'], test='TestVerifCore',
-    corpus='corpus/core', new_marker='p new',
+    corpus='corpus/core', new_marker='p new', only_env='VERIF_CORE_ONLY',
     env=dict(quick=dict(VERIF_CORE_N=1500), thorough=dict(VERIF_CORE_N=20000)),
     rule='container scenarios: random registration sets over 12 service types / 3 interfaces (plain, keyed, grouped, aliased, '
          'multi-return, result-object, instance-valued, initializer forms; In structs with name/group/optional tags; every '
